@@ -1186,13 +1186,19 @@ def module_sets(draw, prof=None):
         if prof['reuse_names'] and mi > 0 and draw(st.integers(0, 2)) == 0:
             # before anything of this module refers to them: re-declare names that earlier modules define
             foreign = [n for n in b.nodes if not n.get('fixture') and n['module'] != mname]
+            # preferably a name that an earlier module imports from another one (a long-lived symbol-table generator
+            # has seen it as an import before it meets it as a declaration)
+            hot = [n for n in foreign if any(frm == n['module'] and n['name'] in syms
+                                             for m_ in b.modules[:-1] for frm, syms in m_['imports'])]
+            if hot and draw(st.booleans()):
+                foreign = hot
             for n in draw(st.lists(st.sampled_from(foreign), max_size=2, unique_by=lambda x: x['name'])) if foreign else []:
                 oid, num = b.new_oid(mod, fixtures_only=True)
                 b.reg_node(mod, n['name'], num)
                 chain = [{'k': 'value', 'name': n['name'], 'oid': oid, 'num': list(num)}]
                 # and a small subtree below the re-declared name (its parent must resolve locally)
                 parent_name, parent_num = n['name'], tuple(num)
-                for depth in range(draw(st.integers(0, 2))):
+                for depth in range(draw(st.integers(0, 3))):
                     cname = b.names.lower()
                     arc = draw(st.integers(1, 9))
                     cnum = parent_num + (arc,)
